@@ -102,6 +102,59 @@ fn c01(seed: u64, cases: usize, model_path: &str, thorough: bool) -> serde_json:
            "files_left_in_tmp_dir": std::fs::read_dir(dir.path()).unwrap().count()})
 }
 
+/// C19m: `mpc` under every per-party tmp_dir pattern (all memory, all file, mixed both ways) for AND counts on both sides of the batch
+/// boundary. Oracles: clear-text result at every party; per-pair traffic identical to the all-memory run; no file left behind.
+/// Tie (hypothesis of `C19_chunk_boundaries`): the chunk lengths the engine appends to a buffer that is later read chunk-wise with size `s`
+/// are exactly the model's `chunkSizeIter total s` (all but the last of length `s`), observed through the `buf_write` / `buf_chunks` taps.
+fn c19m(seed: u64, _cases: usize, model_path: &str, thorough: bool) -> serde_json::Value {
+    use ptverif::exec::Ev;
+    std::panic::set_hook(Box::new(|_| {}));
+    let mut r = Rng::new(seed); let mut m = Model::spawn(model_path).expect("spawn ptmodel");
+    let dir = tempfile::tempdir_in("/var/tmp").unwrap();
+    let mut dist: BTreeMap<String, u64> = BTreeMap::new(); let mut distinct = std::collections::BTreeSet::new();
+    let mut disagreements = vec![]; let mut failures = vec![]; let mut samples = vec![]; let mut execs = 0u64;
+    let ands: &[usize] = if thorough { &[0, 1, 7, 999, 1000, 1001, 1200, 2000, 2100, 3300, 9500] } else { &[0, 3, 1000, 1001, 1200, 2100] };
+    for (ci, &a) in ands.iter().enumerate() {
+        let n = if ci % 3 == 2 { 3 } else { 2 }; let c = circ::and_chain(n, a);
+        let inputs: Vec<Vec<bool>> = c.input_regs.iter().map(|k| (0..*k).map(|_| r.bool()).collect()).collect();
+        let oracle = c.eval(&inputs); let p_eval = r.below(n as u64) as usize; let p_out: Vec<usize> = (0..n).collect();
+        let mut patterns: Vec<Vec<bool>> = vec![vec![false; n], vec![true; n], (0..n).map(|p| p == 0).collect(), (0..n).map(|p| p != 0).collect()];
+        if n == 3 { patterns.push(vec![false, true, false]); }
+        let mut reference: Option<Vec<(usize, usize, String, usize)>> = None;
+        for tmp in patterns {
+            let args: Vec<PartyArgs> = (0..n).map(|p| PartyArgs { inputs: inputs[p].clone(), p_eval, p_own: p, p_out: p_out.clone(), tmp_dir: if tmp[p] { Some(dir.path().to_path_buf()) } else { None } }).collect();
+            let taps = std::rc::Rc::new(std::cell::RefCell::new(Vec::<(String, usize, Vec<u128>)>::new())); let t2 = taps.clone();
+            polytune::verif::set_sink(Some(Box::new(move |k, p, v| if k.starts_with("buf_") { t2.borrow_mut().push((k.to_string(), p, v.to_vec())) })));
+            let run = exec::run(&c, &args, &RunCfg { cap: 1, sched: Sched::RoundRobin, keep_payloads: false }, None); execs += 1;
+            polytune::verif::set_sink(None);
+            let desc = json!({"n": n, "ands": a, "p_eval": p_eval, "tmp_dir": tmp});
+            *dist.entry(format!("ands:{a}")).or_default() += 1; *dist.entry(format!("tmp:{}", tmp.iter().map(|b| if *b { 'F' } else { 'M' }).collect::<String>())).or_default() += 1;
+            distinct.insert(format!("{n}/{a}/{tmp:?}"));
+            // oracle 1: result
+            for p in 0..n { if run.outs[p] != Out::Ok(oracle.clone()) { failures.push(json!({"witness": "C19:mpc-result-depends-on-tmp_dir", "failure": format!("party {p} returned {} (clear text {})", short(&run.outs[p]), circ::bits(&oracle)), "case": desc})); break; } }
+            // oracle 2: traffic equal to the all-memory run
+            let mut tr: Vec<(usize, usize, String, usize)> = run.events.iter().filter_map(|e| if let Ev::Send { from, to, phase, len } = e { Some((*from, *to, phase.clone(), *len)) } else { None }).collect();
+            tr.sort_by(|x, y| (x.0, x.1).cmp(&(y.0, y.1)));   // stable: keeps the per-pair order
+            match &reference { None => reference = Some(tr), Some(rf) => if *rf != tr {
+                let i = (0..rf.len().max(tr.len())).find(|&i| rf.get(i) != tr.get(i)).unwrap_or(0);
+                failures.push(json!({"witness": "C19:mpc-traffic-depends-on-tmp_dir", "failure": format!("per-pair traffic differs from the all-memory run at message {i}: {:?} vs {:?}", rf.get(i), tr.get(i)), "case": desc})); } }
+            // tie: appended chunk lengths vs the chunk size later requested, per party and element type
+            let taps = taps.borrow();
+            for p in 0..n { let mut by_ty: BTreeMap<u128, (Vec<usize>, Vec<usize>)> = BTreeMap::new();
+                for (k, q, v) in taps.iter() { if *q != p { continue; } let e = by_ty.entry(v[2]).or_default(); if k == "buf_write" { e.0.push(v[0] as usize) } else { e.1.push(v[0] as usize) } }
+                for (ty, (writes, reads)) in by_ty { for s in reads.iter().collect::<std::collections::BTreeSet<_>>() {
+                    let total: usize = writes.iter().sum(); let want = m.ask(&format!("chunkiter {total} {s}"));
+                    let got = format!("chunkiter {}", if writes.is_empty() { "-".to_string() } else { writes.iter().map(|x| x.to_string()).collect::<Vec<_>>().join(",") });
+                    *dist.entry("chunked_buffers_checked".into()).or_default() += 1;
+                    if want != got { disagreements.push(json!({"what": "chunks appended to a buffer are not the chunks its reader asks for (hypothesis of C19_chunk_boundaries)", "party": p, "elem_size": ty as u64, "requested_chunk_size": s, "model": want, "real": got, "case": desc})); } } } }
+            if samples.len() < 2 && a > 0 { samples.push(json!({"case": desc, "result": short(&run.outs[0]), "buffer_events": taps.iter().take(6).map(|(k, p, v)| format!("{k}@{p}:{v:?}")).collect::<Vec<_>>()})); }
+        }
+    }
+    let left = std::fs::read_dir(dir.path()).unwrap().count();
+    if left != 0 { failures.push(json!({"witness": "C19:file-left", "failure": format!("{left} files remain in the temp directory")})); }
+    json!({"executions": execs, "distinct_nontrivial": distinct.len(), "distribution": dist, "samples": samples, "model_disagreements": disagreements, "impl_vs_oracle_failures": failures, "model_requests": m.requests})
+}
+
 /// C09/C05: per ordered pair, the recorded (phase,len) sequence of sends vs the model's `pattern` of the public parameters;
 /// plus the property's own oracle: two runs of one public configuration with different inputs/coins have identical patterns.
 fn c09(seed: u64, cases: usize, model_path: &str) -> serde_json::Value {
@@ -179,6 +232,11 @@ fn c18(seed: u64, cases: usize, model_path: &str) -> serde_json::Value {
         assert_eq!(m.ask(&circ::to_line(&c)), "ok");
         let model_valid = m.ask("validate");
         if class.starts_with("circ_") && model_valid == "valid" { disagreements.push(json!({"what": "model validate accepts a circuit built to be invalid", "case": desc})); }
+        // correspondence: the Lean `validateArgs` (the function the C18 theorems are about) must give the same verdict and error class
+        let cls = |o: &Out, sends: usize| -> String { match o { Out::Err(e) if sends == 0 => { for k in ["PartyDoesNotExist", "WrongInputSize", "MissingOutputParties", "InvalidOutputParty"] { if e.contains(k) { return format!("err {k}"); } } if e.contains("CircuitError") || e.contains("Circuit(") || e.contains("InvalidInst") || e.contains("InvalidInput(") || e.contains("InvalidOutput(") || e.contains("InvalidRegAccess") || e.contains("EmptyInputs") || e.contains("EmptyOutputs") { "err circuit".to_string() } else { format!("err other:{e}") } } _ => "ok".to_string() } };
+        let pout_s = if po.is_empty() { "-".to_string() } else { po.iter().map(|x| x.to_string()).collect::<Vec<_>>().join(",") };
+        let model_args = m.ask(&format!("vargs pown={me} len={} peval={pe} pout={pout_s}", inp.len())); let real_args = cls(&run.outs[0], sends(&run));
+        if model_args != real_args { disagreements.push(json!({"what": "validate(args): model vs mpc", "model": model_args, "real": real_args, "case": desc})); }
         let ok = matches!(run.outs[0], Out::Err(_)) && sends(&run) == 0;
         if !ok { failures.push(json!({"witness": if class == "p_eval" { "C18-a:p_eval-unchecked" } else { "C18:other" }, "failure": format!("invalid {class}: outcome {:?} after {} sends", short(&run.outs[0]), sends(&run)), "case": desc})); }
         if samples.len() < 3 { samples.push(desc); }
@@ -188,6 +246,9 @@ fn c18(seed: u64, cases: usize, model_path: &str) -> serde_json::Value {
             let mk = |po: &Vec<usize>| (0..n).map(|p| PartyArgs { inputs: inputs[p].clone(), p_eval: 0, p_own: p, p_out: po.clone(), tmp_dir: None }).collect::<Vec<_>>();
             let (ra, rb) = (exec::run(&good, &mk(&rep), &cfg, None), exec::run(&good, &mk(&set), &cfg, None)); execs += 2;
             *dist.entry("class:p_out_repeat".into()).or_default() += 1;
+            assert_eq!(m.ask(&circ::to_line(&good)), "ok");
+            let model_rep = m.ask(&format!("vargs pown=0 len={} peval=0 pout={q},{q}", inputs[0].len())); let real_rep = cls(&ra.outs[0], sends(&ra));
+            if model_rep != real_rep { disagreements.push(json!({"what": "validate(args) on a repeated output index: model vs mpc", "model": model_rep, "real": real_rep, "case": {"n": n, "p_out": rep, "circuit": circ::to_line(&good)}})); }
             let rejected = ra.outs.iter().all(|o| matches!(o, Out::Err(_))) && sends(&ra) == 0;
             if !(rejected || ra.outs == rb.outs) { failures.push(json!({"witness": "C18-b:p_out-repeats", "failure": format!("p_out={rep:?}: {:?} but as a set: {:?}", ra.outs.iter().map(short).collect::<Vec<_>>(), rb.outs.iter().map(short).collect::<Vec<_>>()), "case": {"n": n, "circuit": circ::to_line(&good)}})); }
         }
@@ -207,6 +268,8 @@ fn c18(seed: u64, cases: usize, model_path: &str) -> serde_json::Value {
             let args: Vec<PartyArgs> = (0..n).map(|p| PartyArgs { inputs: (0..c.input_regs[p]).map(|_| true).collect(), p_eval: 0, p_own: p, p_out: vec![0], tmp_dir: None }).collect();
             let run = exec::run(&c, &args, &cfg, None); execs += 1; *dist.entry(format!("class:{k}")).or_default() += 1;
             *dist.entry(format!("validate:{}|{}", &v[..v.len().min(7)], wf)).or_default() += 1;
+            let model_nwf = m.ask(&format!("vargs pown=0 len={} peval=0 pout=0", c.input_regs[0])); let real_nwf = cls(&run.outs[0], if matches!(run.outs[0], Out::Err(_)) && sends(&run) == 0 { 0 } else { 1 });
+            if (model_nwf == "ok") != (real_nwf == "ok") || (model_nwf != "ok" && model_nwf != real_nwf) { disagreements.push(json!({"what": "validate(args) on a not-well-formed circuit: model vs mpc", "model": model_nwf, "real": real_nwf, "kind": k, "circuit": circ::to_line(&c)})); }
             let real_valid = c.validate().is_ok();
             if real_valid != (v == "valid") { disagreements.push(json!({"what": "validate: model vs garble_lang", "model": v, "real": format!("{:?}", c.validate()), "circuit": circ::to_line(&c)})); }
             if run.outs.iter().any(|o| matches!(o, Out::Panic(_))) { failures.push(json!({"witness": if k == "input_after_gate" { "C18-c:input-after-gate" } else { "C18:other-panic" }, "failure": format!("{k}: {:?}", run.outs.iter().map(short).collect::<Vec<_>>()), "case": {"n": n, "circuit": circ::to_line(&c)}})); }
@@ -308,35 +371,41 @@ fn c03(seed: u64, _cases: usize, _model_path: &str) -> serde_json::Value {
     let cfg = RunCfg { cap: 1, sched: Sched::RoundRobin, keep_payloads: false };
     // (phase, field class, which role the adversary must have: 0 = garbler, 1 = evaluator, 2 = either)
     let fields: Vec<(&str, &str, u8)> = vec![
-        ("wire shares", "bit", 2), ("wire shares", "mac", 2), ("wire shares", "missing", 2),
+        ("wire shares", "bit", 2), ("wire shares", "mac", 2), ("wire shares", "missing", 2), ("wire shares", "bit2", 2),
         ("masked inputs", "claim_victim_wire", 2), ("masked inputs", "equivocate", 2),
         ("labels", "label", 0), ("preprocessed gates", "row_byte", 0),
-        ("output wire shares", "bit", 2), ("output wire shares", "mac", 2), ("output wire shares", "missing", 2),
-        ("lambda", "value", 1), ("lambda", "label", 1), ("lambda", "missing", 1)];
+        ("output wire shares", "bit", 2), ("output wire shares", "mac", 2), ("output wire shares", "missing", 2), ("output wire shares", "bit2", 2),
+        ("lambda", "value", 1), ("lambda", "label", 1), ("lambda", "missing", 1), ("lambda", "value2", 1)];
+    // `bit2` / `value2`: TWO authenticated bits of one message are flipped and the MACs / labels kept — a check on an aggregate would let them cancel.
     for n in [2usize, 3] { for &(phase, field, role) in &fields { for adv_is_eval in [false, true] {
         if (role == 0 && adv_is_eval) || (role == 1 && !adv_is_eval) { continue; }
         if field == "equivocate" && n == 2 { continue; }
         for rep in 0..3 {
-            // circuit: every party has one input; out = (x0 & x1) ^ x2 ..., plus an output that is an input
-            let mut insts: Vec<Inst> = (0..n).map(|p| Inst { out: Reg(p as u32), op: Op::Input(Input { party: p as u32, input: 0 }) }).collect();
-            insts.push(Inst { out: Reg(n as u32), op: Op::And(And(Reg(0), Reg(1))) });
-            if n == 3 { insts.push(Inst { out: Reg(n as u32), op: Op::Xor(Xor(Reg(n as u32), Reg(2))) }); }
-            let c = Circuit { input_regs: vec![1; n], insts, max_reg_count: n + 1, output_regs: vec![Reg(n as u32), Reg(0)], and_ops: 1 };
-            let inputs: Vec<Vec<bool>> = (0..n).map(|_| vec![r.bool()]).collect();
+            // circuit: the victim (party 0) has two inputs (registers 0, 1), every other party one (party p: register p + 1);
+            // out = ((x00 & x1) ^ x01) ^ x2 ..., plus an output that is an input
+            let mut insts: Vec<Inst> = vec![Inst { out: Reg(0), op: Op::Input(Input { party: 0, input: 0 }) }, Inst { out: Reg(1), op: Op::Input(Input { party: 0, input: 1 }) }];
+            for p in 1..n { insts.push(Inst { out: Reg(p as u32 + 1), op: Op::Input(Input { party: p as u32, input: 0 }) }); }
+            let om = n as u32 + 1;
+            insts.push(Inst { out: Reg(om), op: Op::And(And(Reg(0), Reg(2))) }); insts.push(Inst { out: Reg(om), op: Op::Xor(Xor(Reg(om), Reg(1))) });
+            if n == 3 { insts.push(Inst { out: Reg(om), op: Op::Xor(Xor(Reg(om), Reg(3))) }); }
+            let mut ir = vec![1; n]; ir[0] = 2;
+            let c = Circuit { input_regs: ir, insts, max_reg_count: n + 2, output_regs: vec![Reg(om), Reg(0)], and_ops: 1 };
+            let inputs: Vec<Vec<bool>> = (0..n).map(|p| (0..if p == 0 { 2 } else { 1 }).map(|_| r.bool()).collect()).collect();
             let p_eval = if adv_is_eval { 1 } else { 0 }; let p_out: Vec<usize> = (0..n).collect();
             let args: Vec<PartyArgs> = (0..n).map(|p| PartyArgs { inputs: inputs[p].clone(), p_eval, p_own: p, p_out: p_out.clone(), tmp_dir: None }).collect();
-            let (ph, fl) = (phase.to_string(), field.to_string()); let victim = 0usize; let nn = n;
+            let (ph, fl) = (phase.to_string(), field.to_string()); let victim = 0usize; let nn = n + 1;
             let m: exec::Mutator = Box::new(move |from, to, p, k, d| { if from != 1 || p != ph || k != 0 { return Some(d); }
                 let to_victim = to == victim;
                 Some(match (ph.as_str(), fl.as_str()) {
                     ("wire shares", f) | ("output wire shares", f) if to_victim => { let mut v: Vec<Option<(bool, u128)>> = de(&d); let idx = if ph == "wire shares" { victim } else { nn };
-                        match f { "bit" => { if let Some(e) = v[idx].as_mut() { e.0 = !e.0; } } "mac" => { if let Some(e) = v[idx].as_mut() { e.1 ^= 1 << 77; } } _ => v[idx] = None } ser(&v) }
+                        let idx2 = if ph == "wire shares" { 1 } else { 0 };   // the victim's second input wire / the second output register
+                        match f { "bit" => { if let Some(e) = v[idx].as_mut() { e.0 = !e.0; } } "bit2" => { for i in [idx, idx2] { if let Some(e) = v[i].as_mut() { e.0 = !e.0; } } } "mac" => { if let Some(e) = v[idx].as_mut() { e.1 ^= 1 << 77; } } _ => v[idx] = None } ser(&v) }
                     ("masked inputs", "claim_victim_wire") if to_victim => { let mut v: Vec<Option<bool>> = de(&d); v[victim] = Some(true); ser(&v) }
-                    ("masked inputs", "equivocate") if to_victim => { let mut v: Vec<Option<bool>> = de(&d); if let Some(b) = v[1].as_mut() { *b = !*b; } ser(&v) }
+                    ("masked inputs", "equivocate") if to_victim => { let mut v: Vec<Option<bool>> = de(&d); if let Some(b) = v[2].as_mut() { *b = !*b; } ser(&v) }
                     ("labels", _) if to_victim => { let mut v: Vec<Option<u128>> = de(&d); if let Some(l) = v[0].as_mut() { *l ^= 1; } ser(&v) }
                     ("preprocessed gates", _) if to_victim => { let mut v: Vec<[Vec<u8>; 4]> = de(&d); for row in v[0].iter_mut() { row[5] ^= 0x80; } ser(&v) }
                     ("lambda", f) if to_victim => { let mut v: Vec<Option<(bool, u128)>> = de(&d);
-                        match f { "value" => { if let Some(e) = v[nn].as_mut() { e.0 = !e.0; } } "label" => { if let Some(e) = v[nn].as_mut() { e.1 ^= 2; } } _ => v[nn] = None } ser(&v) }
+                        match f { "value" => { if let Some(e) = v[nn].as_mut() { e.0 = !e.0; } } "value2" => { for i in [nn, 0] { if let Some(e) = v[i].as_mut() { e.0 = !e.0; } } } "label" => { if let Some(e) = v[nn].as_mut() { e.1 ^= 2; } } _ => v[nn] = None } ser(&v) }
                     _ => d }) });
             let run = exec::run(&c, &args, &cfg, Some(m)); execs += 1; let o = &run.outs[victim];
             *dist.entry(format!("field:{phase}/{field}")).or_default() += 1; *dist.entry(format!("n:{n}")).or_default() += 1; *dist.entry(format!("outcome:{}", ["ok", "err", "panic", "blocked"][okind(o) as usize])).or_default() += 1;
@@ -368,28 +437,61 @@ fn c04(seed: u64, cases: usize, _model_path: &str) -> serde_json::Value {
         insts.push(Inst { out: Reg(n as u32), op: Op::And(And(Reg(0), Reg(1))) }); Circuit { input_regs: vec![1; n], insts, max_reg_count: n + 1, output_regs: vec![Reg(n as u32)], and_ops: 1 } };
     // ---- (a) detection
     let phases = ["RNG comm", "RNG ver", "CO_OT_s", "CO_OT_r", "CO_OT_c0c1", "ALSZ_OT_setup", "KOS_OT_x_t0_t1", "KOS_OT_corr", "fabitn", "fashare comm", "fashare ver", "fashare di_bi", "haand", "flaand", "flaand comm", "flaand hash", "dvalue", "faand"];
-    for n in [2usize, 3] { let c = mk_circ(n); for phase in phases { for occurrence in [0usize, 1] { for all_recipients in [false, true] {
+    // phases in which EVERY payload bit is covered by a check (MAC, commitment opening, hash comparison, echo broadcast): an accepted flip there is
+    // unverified correlated randomness even when the output happens to be right. `fashare comm` is strict only in its third component (cm), because
+    // exactly one of c0/c1 is legitimately never opened. The OT messages and `flaand` carry values the receiver may legitimately never use.
+    let strict = |phase: &str, pos: usize| -> bool { match phase { "RNG comm" | "RNG ver" | "fabitn" | "fashare ver" | "fashare di_bi" | "haand" | "flaand comm" | "flaand hash" | "dvalue" | "faand" => true, "fashare comm" => (pos - 8) % 96 >= 64, _ => false } };
+    for n in [2usize, 3] { let c = mk_circ(n); for phase in phases { for occurrence in [0usize, 1] { for all_recipients in [false, true] { for fixed in [None, Some(8 + 64 + 3usize), Some(8 + 96 * 39 + 64 + 31)] {
         if n == 2 && all_recipients { continue; }
+        if fixed.is_some() && phase != "fashare comm" { continue; }
         let inputs: Vec<Vec<bool>> = (0..n).map(|_| vec![r.bool()]).collect();
         let args: Vec<PartyArgs> = (0..n).map(|p| PartyArgs { inputs: inputs[p].clone(), p_eval: 0, p_own: p, p_out: (0..n).collect(), tmp_dir: None }).collect();
         let ph = phase.to_string(); let mut rr = r.fork(); let hit = std::rc::Rc::new(std::cell::Cell::new(false)); let hit2 = hit.clone();
         // flip one bit in the payload area (after the 8-byte length prefix) of the chosen message(s): a wrong value, well-formed structure
         let pos_seed = rr.next();
+        let at = std::rc::Rc::new(std::cell::Cell::new(0usize)); let at2 = at.clone();
         let m: exec::Mutator = Box::new(move |from, to, p, k, mut d| { if from != 1 || p != ph || k != occurrence || (!all_recipients && to != 0) || d.len() <= 9 { return Some(d); }
-            let i = 8 + (pos_seed as usize) % (d.len() - 8); d[i] ^= 1 << (pos_seed >> 40) % 8; hit2.set(true); Some(d) });
+            let i = match fixed { Some(f) if f < d.len() => f, _ => 8 + (pos_seed as usize) % (d.len() - 8) }; d[i] ^= 1 << (pos_seed >> 40) % 8; hit2.set(true); at2.set(i); Some(d) });
         let run = exec::run(&c, &args, &RunCfg { cap: 1, sched: Sched::RoundRobin, keep_payloads: false }, Some(m)); execs += 1;
         if !hit.get() { continue; }
         let o = &run.outs[0]; *dist.entry(format!("phase:{phase}")).or_default() += 1; *dist.entry(format!("outcome:{}", ["ok", "err", "panic", "blocked"][okind(o) as usize])).or_default() += 1;
-        distinct.insert(format!("{n}/{phase}/{occurrence}/{all_recipients}"));
-        let desc = json!({"n": n, "phase": phase, "occurrence": occurrence, "all_recipients": all_recipients, "victim": 0});
+        distinct.insert(format!("{n}/{phase}/{occurrence}/{all_recipients}/{fixed:?}"));
+        let desc = json!({"n": n, "phase": phase, "occurrence": occurrence, "all_recipients": all_recipients, "victim": 0, "byte": at.get()});
         match o { Out::Err(_) => {}
             Out::Ok(v) => { // a flipped bit that is semantically irrelevant (e.g. padding, an unused row) may legitimately pass; a changed OUTPUT may not
                 let want = c.eval(&inputs); if *v != want { failures.push(json!({"witness": "C04:wrong-ok", "failure": format!("victim completed with {} (clear text {}) after a wrong {phase} value", circ::bits(v), circ::bits(&want)), "case": desc})); }
+                else if strict(phase, at.get()) { failures.push(json!({"witness": format!("C04:accepted-unverified:{phase}"), "failure": format!("a flipped bit at byte {} of `{phase}` was accepted (victim finished Ok): every bit of this message is supposed to be covered by a check", at.get()), "case": desc})); }
                 else { *dist.entry(format!("ok_with_correct_result:{phase}")).or_default() += 1; } }
             Out::Panic(m) => failures.push(json!({"witness": if phase == "fashare ver" { "C08-b:ashare-dm-inner-index" } else if phase == "dvalue" { "C08-c:dvalue-inner-index" } else { "C04:panic" }, "failure": format!("victim panicked: {m}"), "case": desc})),
             Out::Blocked => failures.push(json!({"witness": "C04:blocked", "failure": "victim blocked", "case": desc})) }
         if samples.len() < 2 { samples.push(json!({"case": desc, "victim": short(o)})); }
-    } } } }
+    } } } } }
+    // ---- (a2) several lies in ONE message (a cheater that flips an even number of authenticated bits and keeps the MACs): every such
+    // message must still be rejected — a check that only looks at an aggregate (XOR / sum of the differences) lets them cancel.
+    let mk_circ2 = |n: usize| { let mut insts: Vec<Inst> = (0..n).map(|p| Inst { out: Reg(p as u32), op: Op::Input(Input { party: p as u32, input: 0 }) }).collect();
+        insts.push(Inst { out: Reg(n as u32), op: Op::And(And(Reg(0), Reg(1))) }); insts.push(Inst { out: Reg(n as u32 + 1), op: Op::And(And(Reg(n as u32), Reg(1))) });
+        Circuit { input_regs: vec![1; n], insts, max_reg_count: n + 2, output_regs: vec![Reg(n as u32 + 1)], and_ops: 2 } };
+    // (phase, byte offsets of Boolean fields to flip, all in one message). Layouts (bincode legacy): Vec<(bool,u128)> = 8 + 17k; Vec<(bool,bool,Mac,Mac)> = 8 + 34k;
+    // Vec<(Vec<bool>,Vec<Mac>)> with 4 entries each = 8 + 84k (+8 to the first bit); Vec<(bool,bool)> = 8 + 2k; `fashare ver` (n = 2) = 8 + 25r (+8 to the bit).
+    let multi: Vec<(&str, Vec<usize>)> = vec![("faand", vec![8, 9]), ("faand", vec![8, 8 + 34]), ("faand", vec![9, 9 + 34]), ("faand", vec![8, 9, 8 + 34, 9 + 34]),
+        ("fabitn", vec![8, 8 + 17]), ("fabitn", vec![8 + 17 * 5, 8 + 17 * 119]), ("dvalue", vec![16, 17]), ("dvalue", vec![16, 16 + 84]), ("dvalue", vec![16, 17, 18, 19]),
+        ("haand", vec![8, 9]), ("haand", vec![8, 10]), ("fashare ver", vec![16, 16 + 25]), ("fashare ver", vec![16, 16 + 25 * 39])];
+    for (phase, offs) in multi { for occurrence in [0usize, 1] { let n = 2; let c = mk_circ2(n);
+        let inputs: Vec<Vec<bool>> = (0..n).map(|_| vec![r.bool()]).collect();
+        let args: Vec<PartyArgs> = (0..n).map(|p| PartyArgs { inputs: inputs[p].clone(), p_eval: 0, p_own: p, p_out: (0..n).collect(), tmp_dir: None }).collect();
+        let ph = phase.to_string(); let hit = std::rc::Rc::new(std::cell::Cell::new(false)); let hit2 = hit.clone(); let offs2 = offs.clone();
+        let m: exec::Mutator = Box::new(move |from, to, p, k, mut d| { if from != 1 || to != 0 || p != ph || k != occurrence || offs2.iter().any(|o| *o >= d.len() || d[*o] > 1) { return Some(d); }
+            for o in &offs2 { d[*o] ^= 1; } hit2.set(true); Some(d) });
+        let run = exec::run(&c, &args, &RunCfg { cap: 1, sched: Sched::RoundRobin, keep_payloads: false }, Some(m)); execs += 1;
+        if !hit.get() { continue; }
+        let o = &run.outs[0]; *dist.entry(format!("multi:{phase}")).or_default() += 1; *dist.entry(format!("multi_outcome:{}", ["ok", "err", "panic", "blocked"][okind(o) as usize])).or_default() += 1;
+        distinct.insert(format!("multi/{phase}/{offs:?}/{occurrence}"));
+        let desc = json!({"n": n, "phase": phase, "occurrence": occurrence, "flipped_bool_bytes": offs, "victim": 0});
+        // the victim must leave PREPROCESSING with an error: it may not get past the check on the strength of a later, unrelated failure
+        let pre_err = match o { Out::Err(e) => e.contains("Preprocessing") || e.contains("WrongMAC") || e.contains("XorNotZero") || e.contains("Commitment") || e.contains("Broadcast") || e.contains("KOS") || e.contains("InvalidBitValue"), _ => false };
+        if !pre_err { failures.push(json!({"witness": format!("C04:accepted-unverified-multi:{phase}"), "failure": format!("{} authenticated Boolean fields of one `{phase}` message were flipped (MACs unchanged) and the victim did not reject it in preprocessing: {}", offs.len(), short(o)), "case": desc})); }
+        if samples.len() < 3 { samples.push(json!({"case": desc, "victim": short(o)})); }
+    } }
     // ---- (b) ordering under many schedules
     let rounds = [("RNG comm", "RNG ver"), ("fashare comm", "fashare ver"), ("fashare comm", "fashare di_bi"), ("flaand comm", "flaand hash")];
     for case in 0..cases { let n = r.range(2, 4) as usize; let c = mk_circ(n);
@@ -512,7 +614,8 @@ fn c10(seed: u64, cases: usize, _model_path: &str, thorough: bool) -> serde_json
             if si.macs[j] != sj.keys[i] ^ if si.bit { deltas[j] } else { 0 } { failures.push(json!({"witness": "C10:mac-relation", "failure": format!("{what}: share #{l}: MAC held by {i} != key held by {j} ^ bit*delta_{j}"), "case": desc})); return; } } } } };
     let mut plan: Vec<(usize, usize, usize)> = vec![(2, 1, 1), (2, 7, 2), (3, 5, 3)];           // (n, random shares, and triples)
     for _ in 0..cases { plan.push((r.range(2, if thorough { 5 } else { 4 }) as usize, r.range(1, if thorough { 5000 } else { 300 }) as usize, r.range(1, if thorough { 700 } else { 40 }) as usize)); }
-    if thorough { plan.push((2, 10, 3100)); }
+    plan.push((2, 10, 3100));                                      // bucket size 4 (1 s)
+    if thorough { plan.push((3, 10, 3300)); }
     for (n, l, ands) in plan {
         let deltas: Vec<u128> = (0..n).map(|_| ((r.next() as u128) << 64) | r.next() as u128).collect();
         let picks: Vec<(usize, usize)> = (0..ands).map(|_| (r.below(l as u64) as usize, r.below(l as u64) as usize)).collect();
@@ -679,16 +782,17 @@ fn c03m(seed: u64, cases: usize, model_path: &str) -> serde_json::Value {
         let args: Vec<PartyArgs> = (0..n).map(|p| PartyArgs { inputs: inputs[p].clone(), p_eval, p_own: p, p_out: p_out.clone(), tmp_dir: None }).collect();
         let uniq: Vec<u32> = { let mut u: Vec<u32> = c.output_regs.iter().map(|r| r.0).collect(); u.sort(); u.dedup(); u };
         let target_reg = uniq[r.below(uniq.len() as u64) as usize] as usize;
-        let kinds: &[&str] = if adv_is_eval { &["share_bit", "share_mac", "share_missing", "lambda_value", "lambda_label", "lambda_missing", "share_truncate", "none"] } else { &["share_bit", "share_mac", "share_missing", "share_extra_some", "share_truncate", "none"] };
+        let kinds: &[&str] = if adv_is_eval { &["share_bit", "share_bits_all", "share_bits_two", "share_mac", "share_missing", "lambda_value", "lambda_values_all", "lambda_label", "lambda_missing", "share_truncate", "none"] } else { &["share_bit", "share_bits_all", "share_bits_two", "share_mac", "share_missing", "share_extra_some", "share_truncate", "none"] };
+        let second_reg = uniq[(uniq.iter().position(|x| *x as usize == target_reg).unwrap() + 1) % uniq.len()] as usize;
         let kind = kinds[r.below(kinds.len() as u64) as usize].to_string(); let k2 = kind.clone(); let flipbit = r.below(128);
         let got: Rc<RefCell<BTreeMap<String, Vec<u8>>>> = Default::default(); let g2 = got.clone();
         let mutator: exec::Mutator = Box::new(move |from, to, ph, _k, d| { if to != h || (ph != "output wire shares" && ph != "lambda") { return Some(d); }
             let mut d = d;
             if from == adv { if ph == "output wire shares" { let mut v: Vec<Option<(bool, u128)>> = de(&d);
-                    match k2.as_str() { "share_bit" => { if let Some(e) = v[target_reg].as_mut() { e.0 = !e.0; } } "share_mac" => { if let Some(e) = v[target_reg].as_mut() { e.1 ^= 1u128 << flipbit; } } "share_missing" => v[target_reg] = None,
+                    match k2.as_str() { "share_bit" => { if let Some(e) = v[target_reg].as_mut() { e.0 = !e.0; } } "share_bits_all" => { for e in v.iter_mut().flatten() { e.0 = !e.0; } } "share_bits_two" => { for i in [target_reg, second_reg] { if let Some(e) = v[i].as_mut() { e.0 = !e.0; } } } "share_mac" => { if let Some(e) = v[target_reg].as_mut() { e.1 ^= 1u128 << flipbit; } } "share_missing" => v[target_reg] = None,
                         "share_extra_some" => { for e in v.iter_mut() { if e.is_none() { *e = Some((true, 7)); } } } "share_truncate" => { v.pop(); } _ => {} } d = ser(&v); }
                 else { let mut v: Vec<Option<(bool, u128)>> = de(&d);
-                    match k2.as_str() { "lambda_value" => { if let Some(e) = v[target_reg].as_mut() { e.0 = !e.0; } } "lambda_label" => { if let Some(e) = v[target_reg].as_mut() { e.1 ^= 1u128 << flipbit; } } "lambda_missing" => v[target_reg] = None, _ => {} } d = ser(&v); } }
+                    match k2.as_str() { "lambda_value" => { if let Some(e) = v[target_reg].as_mut() { e.0 = !e.0; } } "lambda_values_all" => { for e in v.iter_mut().flatten() { e.0 = !e.0; } } "lambda_label" => { if let Some(e) = v[target_reg].as_mut() { e.1 ^= 1u128 << flipbit; } } "lambda_missing" => v[target_reg] = None, _ => {} } d = ser(&v); } }
             g2.borrow_mut().insert(format!("{ph}/{from}"), d.clone()); Some(d) });
         let taps: Rc<RefCell<Vec<(String, usize, Vec<u128>)>>> = Default::default(); let t2 = taps.clone();
         polytune::verif::set_sink(Some(Box::new(move |k, p, v| t2.borrow_mut().push((k.to_string(), p, v.to_vec())))));
@@ -697,12 +801,12 @@ fn c03m(seed: u64, cases: usize, model_path: &str) -> serde_json::Value {
         assert_eq!(m.ask(&circ::to_line(&c)), "ok"); assert_eq!(m.ask(&format!("tap reset {n}")), "ok");
         for p in 0..n { let get = |k: &str| -> Vec<u128> { taps.iter().filter(|t| t.0 == k && t.1 == p).flat_map(|t| t.2.clone()).collect() };
             m.ask(&format!("tap delta {p} {}", hexl(&get("delta")))); m.ask(&format!("tap rnd {p} {}", hexl(&get("random_shares")))); m.ask(&format!("tap ab {p} {}", hexl(&get("auth_bits")))); m.ask(&format!("tap inlab {p} {}", hexl(&get("input_label")))); m.ask(&format!("tap gatelab {p} {}", hexl(&get("gate_label")))); }
-        let mut req = format!("openout h={h} peval={p_eval} skip=1 inputs={}", inputs.iter().map(|v| circ::bits(v)).collect::<Vec<_>>().join("|"));
+        let mut req = format!("openout h={h} peval={p_eval} skip=0 inputs={}", inputs.iter().map(|v| circ::bits(v)).collect::<Vec<_>>().join("|"));
         for p in (0..n).filter(|p| *p != h) { if let Some(b) = got.get(&format!("output wire shares/{p}")) { req += &format!(" from{p}={}", hex(b)); } }
         if let Some(b) = got.get(&format!("lambda/{p_eval}")) { req += &format!(" lam={}", hex(b)); }
         let model = m.ask(&req);
         let real = match &run.outs[h] { Out::Ok(v) => format!("ok {}", circ::bits(v)), Out::Err(e) => { let k = if e.contains("InvalidOutputMac") { "InvalidOutputMac" } else if e.contains("InvalidOutputLabel") { "InvalidOutputLabel" } else if e.contains("MissingOutputShare") { "MissingOutputShare" } else if e.contains("ChannelError") { "channel" } else { "other" };
-                let reg = e.split("Reg(").nth(1).and_then(|x| x.split(')').next()).unwrap_or("0"); format!("err {k} {reg}") } o => short(o) };
+                let reg = e.rsplit("Reg(").next().filter(|_| e.contains("Reg(")).and_then(|x| x.split(')').next()).unwrap_or("0"); format!("err {k} {reg}") } o => short(o) };
         *dist.entry(format!("forgery:{kind}")).or_default() += 1; *dist.entry(format!("verdict:{}", real.split(' ').take(2).collect::<Vec<_>>().join(" "))).or_default() += 1; distinct.insert((circ::to_line(&c), kind.clone(), p_eval, target_reg));
         let desc = json!({"case": case, "n": n, "p_eval": p_eval, "forgery": kind, "target_reg": target_reg, "circuit": circ::to_line(&c)});
         if model != real { disagreements.push(json!({"real": real, "model": model, "case": desc})); } else if samples.len() < 3 { samples.push(json!({"case": desc, "verdict": real})); }
@@ -723,7 +827,18 @@ fn c10u(seed: u64, cases: usize, model_path: &str) -> serde_json::Value {
         let show = |s: &v::VShare| std::iter::once(format!("{}", s.bit as u8)).chain((0..n).flat_map(|j| [format!("{:x}", s.macs[j]), format!("{:x}", s.keys[j])])).collect::<Vec<_>>().join(",");
         let model = m.ask(&format!("combine {n} {i} {} {}", flat.join(","), d as u8)); let want = format!("combine {} {} {}", show(&real.0), show(&real.1), show(&real.2));
         distinct.insert((n, i, d, case)); if model != want { disagreements.push(json!({"case": case, "n": n, "party": i, "d": d, "real": want.chars().take(200).collect::<String>(), "model": model.chars().take(200).collect::<String>()})); } else if samples.len() < 2 { samples.push(json!({"n": n, "party": i, "d": d})); } }
-    json!({"executions": cases.max(50), "distinct_nontrivial": distinct.len(), "distribution": {}, "samples": samples, "model_disagreements": disagreements, "impl_vs_oracle_failures": []})
+    // whole buckets of EVERY size 1..=8 (the engine uses 5, 4 and 3; 4 and 3 need 3 100 resp. 280 000 triples per batch to be reached through `mpc`)
+    let mut buckets = 0u64; let mut dist: BTreeMap<String, u64> = BTreeMap::new();
+    for b in 1..=8usize { for rep in 0..12 { let n = r.range(2, 5) as usize; let i = r.below(n as u64) as usize;
+        let mk = |r: &mut Rng| v::VShare { bit: r.bool(), macs: (0..n).map(|j| if j == i { 0 } else { r128(r) }).collect(), keys: (0..n).map(|j| if j == i { 0 } else { r128(r) }).collect() };
+        let bucket: Vec<(v::VShare, v::VShare, v::VShare)> = (0..b).map(|_| (mk(&mut r), mk(&mut r), mk(&mut r))).collect(); let ds: Vec<bool> = (0..b - 1).map(|_| r.bool()).collect();
+        let show = |s: &v::VShare| std::iter::once(format!("{}", s.bit as u8)).chain((0..n).flat_map(|j| [format!("{:x}", s.macs[j]), format!("{:x}", s.keys[j])])).collect::<Vec<_>>().join(",");
+        let flat: Vec<String> = bucket.iter().flat_map(|t| [&t.0, &t.1, &t.2]).flat_map(|s| std::iter::once(format!("{:x}", s.bit as u8)).chain((0..n).flat_map(|j| [format!("{:x}", s.macs[j]), format!("{:x}", s.keys[j])]))).collect();
+        let want = match v::combine_bucket(i, n, &bucket, ds.clone()) { Ok(real) => format!("combinebucket {} {} {}", show(&real.0), show(&real.1), show(&real.2)), Err(e) => format!("err {e}") };
+        let model = m.ask(&format!("combinebucket {n} {b} {} {}", flat.join(","), if ds.is_empty() { "-".to_string() } else { circ::bits(&ds) }));
+        buckets += 1; *dist.entry(format!("bucket_size:{b}")).or_default() += 1; distinct.insert((n, i, false, 1000 + b * 100 + rep));
+        if model != want { disagreements.push(json!({"what": "combine_bucket: real vs Lean combineBucket", "bucket_size": b, "n": n, "party": i, "d": circ::bits(&ds), "real": want.chars().take(160).collect::<String>(), "model": model.chars().take(160).collect::<String>()})); } } }
+    json!({"executions": cases.max(50) as u64 + buckets, "distinct_nontrivial": distinct.len(), "distribution": dist, "samples": samples, "model_disagreements": disagreements, "impl_vs_oracle_failures": []})
 }
 
 /// C07 tie: what party 0 reveals in the third aShare round (`fashare di_bi`) vs the Lean `openedD` (the function of
@@ -896,6 +1011,6 @@ fn main() {
     let seed: u64 = std::env::var("VERIF_SEED").ok().and_then(|s| s.parse().ok()).unwrap_or(1);
     let cases: usize = a.iter().position(|x| x == "--cases").and_then(|i| a.get(i + 1)).and_then(|s| s.parse().ok()).unwrap_or(300);
     let model = a.iter().position(|x| x == "--model").and_then(|i| a.get(i + 1)).cloned().unwrap_or("/verif/lean/.lake/build/bin/ptmodel".into());
-    let out = match prop { "C19" => c19(seed, cases, &model), "C08" => c08(seed, cases, &model, a.iter().any(|x| x == "--thorough")), "C03" => c03(seed, cases, &model), "C04" => c04(seed, cases, &model), "C11" => c11(seed, cases, &model, a.iter().any(|x| x == "--thorough")), "C20" => c20(seed, cases, &model, a.iter().any(|x| x == "--thorough")), "C10" => c10(seed, cases, &model, a.iter().any(|x| x == "--thorough")), "C06" => c06(seed, cases, &model, "C06"), "C07" => c06(seed, cases, &model, "C07"), "C04p" => c06(seed, cases, &model, "C04p"), "C01m" => c01m(seed, cases, &model), "C03m" => c03m(seed, cases, &model), "C10u" => c10u(seed, cases, &model), "C07m" => c07m(seed, cases, &model), "C10m" => c10m(seed, cases, &model), "C10l" => c10l(seed, cases, &model), "C12o" => c12o(seed, cases, &model), "C04m" => c04m(seed, cases, &model), "C18" => c18(seed, cases, &model), "C09" => c09(seed, cases, &model), "C01" => c01(seed, cases, &model, a.iter().any(|x| x == "--thorough")), _ => { eprintln!("unknown property"); std::process::exit(2) } };
+    let out = match prop { "C19" => c19(seed, cases, &model), "C08" => c08(seed, cases, &model, a.iter().any(|x| x == "--thorough")), "C03" => c03(seed, cases, &model), "C04" => c04(seed, cases, &model), "C11" => c11(seed, cases, &model, a.iter().any(|x| x == "--thorough")), "C20" => c20(seed, cases, &model, a.iter().any(|x| x == "--thorough")), "C10" => c10(seed, cases, &model, a.iter().any(|x| x == "--thorough")), "C06" => c06(seed, cases, &model, "C06"), "C07" => c06(seed, cases, &model, "C07"), "C04p" => c06(seed, cases, &model, "C04p"), "C01m" => c01m(seed, cases, &model), "C03m" => c03m(seed, cases, &model), "C10u" => c10u(seed, cases, &model), "C07m" => c07m(seed, cases, &model), "C10m" => c10m(seed, cases, &model), "C10l" => c10l(seed, cases, &model), "C12o" => c12o(seed, cases, &model), "C04m" => c04m(seed, cases, &model), "C18" => c18(seed, cases, &model), "C09" => c09(seed, cases, &model), "C01" => c01(seed, cases, &model, a.iter().any(|x| x == "--thorough")), "C19m" => c19m(seed, cases, &model, a.iter().any(|x| x == "--thorough")), _ => { eprintln!("unknown property"); std::process::exit(2) } };
     println!("{}", serde_json::to_string_pretty(&out).unwrap());
 }
